@@ -237,6 +237,33 @@ fk!([const N: usize] Delay<Q, N>, Q => Q {
 });
 fk!([const N: usize] MeanVariance<Q, N>, Q => signalo_filters::mean::mean_variance::Output<Q> {});
 
+// ---- C19: the windowed filters over the instrumented sample type ------------------------
+
+use crate::tracked::Tracked;
+impl FromVal for Tracked {
+    fn from_val(v: Val) -> Tracked {
+        Tracked::new(Q::from_val(v))
+    }
+}
+impl FromArgs for Tracked {
+    fn from_args(a: &[Val]) -> Self {
+        assert!(a.len() == 1, "harness: expected one input");
+        Tracked::from_val(a[0])
+    }
+}
+impl Render for Tracked {
+    fn r(&self) -> String {
+        self.q.r()
+    }
+}
+median_fk!(Tracked);
+mean_fk!(Tracked);
+fk!([const N: usize] Max<Tracked, N>, Tracked => Tracked {});
+fk!([const N: usize] Min<Tracked, N>, Tracked => Tracked {});
+fk!([const N: usize] Bounds<Tracked, N>, Tracked => (Tracked, Tracked) {});
+fk!([const N: usize] Convolve<Tracked, N>, Tracked => Tracked {});
+fk!([const N: usize] Delay<Tracked, N>, Tracked => Tracked {});
+
 // ---- stateless / scalar-state filters ---------------------------------------------------
 
 fk!([] Differentiate<Q>, Q => Q {
@@ -564,6 +591,16 @@ fn build_inner(kind: &str, kv: &KV, wrap: Option<&str>) -> Box<dyn Inst> {
         ("median", "f64") => with_n!(kv_n(kv, "N"), N => finish(Median::<f64, N>::default(), wrap)),
         ("mean", "q") => with_n!(kv_n(kv, "N"), N => finish(Mean::<Q, N>::default(), wrap)),
         ("mean", "i64") => with_n!(kv_n(kv, "N"), N => finish(Mean::<i64, N>::default(), wrap)),
+        ("median", "tracked") => with_n!(kv_n(kv, "N"), N => finish(Median::<Tracked, N>::default(), wrap)),
+        ("mean", "tracked") => with_n!(kv_n(kv, "N"), N => finish(Mean::<Tracked, N>::default(), wrap)),
+        ("max", "tracked") => with_n!(kv_n(kv, "N"), N => finish(Max::<Tracked, N>::default(), wrap)),
+        ("min", "tracked") => with_n!(kv_n(kv, "N"), N => finish(Min::<Tracked, N>::default(), wrap)),
+        ("bounds", "tracked") => with_n!(kv_n(kv, "N"), N => finish(Bounds::<Tracked, N>::default(), wrap)),
+        ("delay", "tracked") => with_n!(kv_n(kv, "N"), N => finish(Delay::<Tracked, N>::default(), wrap)),
+        ("convolve", "tracked") => {
+            let c: Vec<Tracked> = kv_qs(kv, "c").into_iter().map(Tracked::new).collect();
+            with_n!(c.len(), N => finish(Convolve::<Tracked, N>::with_config(ConvolveConfig { coefficients: arr(c) }), wrap))
+        }
         ("max", _) => with_n!(kv_n(kv, "N"), N => finish(Max::<Q, N>::default(), wrap)),
         ("min", _) => with_n!(kv_n(kv, "N"), N => finish(Min::<Q, N>::default(), wrap)),
         ("bounds", _) => with_n!(kv_n(kv, "N"), N => finish(Bounds::<Q, N>::default(), wrap)),
